@@ -40,8 +40,11 @@ class Observable:
                 f"from {old_value} to {new_value}"
             )
         )
-        for observer in self._observers:
-            observer(sender, old_value, new_value)
+        # Observers may watch/unwatch from inside their callback: walk the list as
+        # it was when the change arrived, and skip any that were removed meanwhile
+        for observer in tuple(self._observers):
+            if observer in self._observers:
+                observer(sender, old_value, new_value)
 
     @property
     def has_observers(self) -> bool:
